@@ -198,6 +198,12 @@ func primMode(e *Exec, a []Value) Value {
 	switch m {
 	case "int", "INT":
 		e.mode = ModeINT
+		if e.solINT != nil && e.sol != e.solINT {
+			// integer/real queries go to the solver that decides them (z3 5.x; see DESIGN.md section 4)
+			e.sol.Pop()
+			e.sol = e.solINT
+			e.sol.Push()
+		}
 	case "bv", "BV":
 		e.mode = ModeBV
 	default:
